@@ -1,13 +1,17 @@
 """C19 — cluster replay reaches each key's slot owner and keeps per-key order.
 
-D layer : spec/ClusterReplay.tla — sender with a (possibly stale) slot map and a window of commands in
+D layer : spec/ClusterTxn.tla — transactional mode: batches with the resume position appended, elements judged one by one
+          (the code: MULTI/EXEC dropped) or at EXEC (a real transaction), hand-overs between elements, restarts from the stored
+          position; holds with a real transaction, refuted without (the recorded findings).
+          spec/ClusterReplay.tla — sender with a (possibly stale) slot map and a window of commands in
           flight, nodes that execute only what they own, MOVED handled when the reply is consumed,
           asynchronous map refresh, slot hand-overs at any moment.  Window = 1 (blocking batches) is
           checked for C19_PerKeyOrder and C19_NoSilentLoss; Window = 3 (pipelined) for C19_NoSilentLoss.
 P layer : spec/trace/TraceCluster.tla judges the cluster-wide execution order recorded by a three-node
           cluster fake (MOVED / ASK / importing / migrating) under the real RedisOutput in blocking,
           pipelined and transactional mode, with migrations fired at request counts and restarts
-          after every reported error."""
+          after every reported error.  spec/trace/TraceBisync.tla judges what took effect when the real bidirectional replay
+          (txn batcher) runs while the slot of one of its units is handed over at the marker, a business command or the EXEC."""
 import json, os, time, shutil
 import vlib
 
@@ -54,6 +58,29 @@ def _check(prop, tier, seed, replay, work, t0):
         states += r["distinct"]
         trans += r["generated"]
         druns.append({"spec": "ClusterReplay", "N": n_, "Window": window, "MaxMig": 2, "invariants": invs.split(), "distinct": r["distinct"]})
+    # transactional mode: ClusterTxn.tla.  The design with a real MULTI/EXEC per batch satisfies all four properties; the
+    # design the code implements (the cluster batchers drop MULTI/EXEC) keeps "once per run" and is refuted on the other three -
+    # the design-level form of the recorded C19-cluster-txn findings, and the control that the invariants can fail.
+    tcfg = ("SPECIFICATION Spec\nCONSTANTS\n  Keys = {k1, k2}\n  Nodes = {n1, n2}\n  N = %d\n  B = 2\n  MaxMig = 2\n  MaxRuns = 3\n  RealMulti = %s\n"
+            "INVARIANTS %s\nCHECK_DEADLOCK FALSE\n")
+    tn = 5 if tier == "quick" else 6
+    tspec = [os.path.join(SPEC, "ClusterTxn.tla")]
+    allinv = "TypeOK C19_NoSkip C19_StoredPositionIsExecuted C19_NoSilentLoss C19_TxnOncePerRun"
+    r = vlib.tlc(tspec, "ClusterTxn", tcfg % (tn, "TRUE", allinv), work, timeout=3000, name="ClusterTxnReal")
+    vlib.tlc_ok(r, "ClusterTxn.tla RealMulti=TRUE")
+    states += r["distinct"]
+    trans += r["generated"]
+    druns.append({"spec": "ClusterTxn", "RealMulti": True, "N": tn, "B": 2, "invariants": allinv.split(), "distinct": r["distinct"], "result": "hold"})
+    r = vlib.tlc(tspec, "ClusterTxn", tcfg % (tn, "FALSE", "TypeOK C19_TxnOncePerRun"), work, timeout=3000, name="ClusterTxnPlain")
+    vlib.tlc_ok(r, "ClusterTxn.tla RealMulti=FALSE (once per run)")
+    states += r["distinct"]
+    trans += r["generated"]
+    druns.append({"spec": "ClusterTxn", "RealMulti": False, "N": tn, "B": 2, "invariants": ["TypeOK", "C19_TxnOncePerRun"], "distinct": r["distinct"], "result": "hold"})
+    for inv in ("C19_NoSkip", "C19_StoredPositionIsExecuted", "C19_NoSilentLoss"):
+        r = vlib.tlc(tspec, "ClusterTxn", tcfg % (5, "FALSE", inv), work, timeout=3000, name="ClusterTxnCtl" + inv[4:])
+        if inv not in r["invariant_violated"]:
+            raise vlib.HarnessError("ClusterTxn.tla with RealMulti = FALSE: %s was expected to be refuted (design-level form of the recorded finding)" % inv)
+        druns.append({"spec": "ClusterTxn", "RealMulti": False, "N": 5, "B": 2, "invariants": [inv], "result": "refuted (recorded finding C19-cluster-txn-*)"})
     shards = vlib.NCPU
     n, cmds_, nhot = (640, 8, 1600) if tier == "quick" else (3200, 12, 6400)
     trace = os.path.join(work, "trace.ndjson")
@@ -155,7 +182,59 @@ def _check(prop, tier, seed, replay, work, t0):
             violations.append({"replay": path, "what": "%s in %s mode at event %d of scenario %d (%s): executed order %s, final lists %s, returns %s" % (
                 ",".join(names), hdr["mode"], v["line"] - j, tid, sig, [e["idx"] for e in evs if e["ev"] == "Exec"],
                 rets[-1]["final"] if rets else None, [(r_["err"], r_["text"][:60]) for r_ in rets])})
-    cov = {"states": states, "transitions": trans, "traces_validated_against_impl": nscen, "samples": vlib.trace_samples(trace), "exhaustive": False,
+    # ---- bidirectional units (the txn batcher: MULTI, marker, business, record, index, EXEC to one node) while the slot
+    # of one unit is handed over: at the unit's marker, at its first business command or at its EXEC; at once (MOVED) or as a
+    # migration in progress (ASK, finished later).  The trace lists what took effect; TraceBisync.tla's rules apply as they are.
+    bdrv = vlib.build_driver("bisyncdrv", work)
+    nb = 96 if tier == "quick" else 960
+    cmds = [[bdrv, "-cluster", "-mig", "-seed", str(seed), "-n", str(nb), "-max-units", "5", "-id-base", "7000000", "-shard", str(i), "-shards", str(shards),
+             "-out", os.path.join(work, "bm%d.ndjson" % i), "-stats", os.path.join(work, "bm%d.json" % i)] for i in range(shards)]
+    for rc, out in vlib.run_parallel(cmds, timeout=6000):
+        if rc != 0:
+            raise vlib.HarnessError("bisyncdrv -mig failed (%d):\n%s" % (rc, out[-3000:]))
+    btrace = os.path.join(work, "bmtrace.ndjson")
+    bscen, bkinds = 0, {}
+    with open(btrace, "w") as w:
+        for i in range(shards):
+            st = json.load(open(os.path.join(work, "bm%d.json" % i)))
+            bscen += st["scenarios"]
+            for k, v_ in (st.get("refuse_kinds") or {}).items():
+                bkinds[k] = bkinds.get(k, 0) + v_
+            shutil.copyfileobj(open(os.path.join(work, "bm%d.ndjson" % i)), w)
+    bviol, btr = vlib.tlc_trace([os.path.join(SPEC, "trace", "TraceBisync.tla")], "TraceBisync", btrace, work, timeout=6000)
+    rename = {"C14_UnitNeverCommitted": "C19_UnitLostUnderHandOver", "C14_SyncModeRepeatedUnit": "C19_UnitExecutedTwice", "C14_UnitSplit": "C19_UnitSplit",
+              "C18_RoutableUnitRefused": "C19_HandOverEndsReplay"}
+    if bviol:
+        blines = open(btrace).read().splitlines()
+        bseen = set()
+        for v in sorted(bviol, key=lambda x: x["line"]):
+            if v["trace"] in bseen:
+                continue
+            bseen.add(v["trace"])
+            j = v["line"] - 1
+            while j > 0 and json.loads(blines[j])["ev"] != "Reset":
+                j -= 1
+            k = v["line"]
+            while k < len(blines) and json.loads(blines[k])["ev"] != "Reset":
+                k += 1
+            evs = [json.loads(x) for x in blines[j:k]]
+            hdr = evs[0]
+            migs = [e for e in evs if e["ev"] == "Mig"]
+            names = sorted(rename.get(n_, "C19_UnderHandOver:" + n_) for n_ in v["names"])
+            sig = {"invariant": names[0], "bisync": True, "mode": hdr["mode"], "hand_over": (migs[0]["kind"] + "@" + migs[0]["at"]) if migs else "none"}
+            f = vlib.known_match(prop, sig)
+            if f:
+                known.append(f)
+                continue
+            if len(violations) >= 10:
+                continue
+            path = vlib.save_replay(prop, "bm%d" % v["trace"], {"property": prop, "invariants": names, "signature": sig, "at_event": v["line"] - j, "events": evs})
+            violations.append({"replay": path, "what": "%s: bidirectional link in %s mode, hand-over %s, at event %d of scenario %d: units=%s; last events %s" % (
+                ",".join(names), hdr["mode"], sig["hand_over"], v["line"] - j, v["trace"], [(u["s"], u["e"], u["n"]) for u in hdr["units"]],
+                [json.dumps(e)[:160] for e in evs[max(0, v["line"] - j - 4):v["line"] - j]])})
+    nscen += bscen
+    cov = {"bidirectional_units_under_hand_over": {"scenarios": bscen, "by_hand_over": bkinds, "trace_events_checked": btr["distinct"]},
+           "states": states, "transitions": trans, "traces_validated_against_impl": nscen, "samples": vlib.trace_samples(trace), "exhaustive": False,
            "executed_commands": nexec, "scenarios_with_migrations": nmig, "scenarios_by_mode": modes, "d_layer_runs": druns,
            "trace_events_checked": tr["distinct"],
            "explanation": "streams of <= %d RPUSH commands (and, where two keys share a tag, three-key DEL commands) over 2-4 hash-tagged keys (every 4th scenario: one hot key, 10-17 commands, single-command batches) "
@@ -163,7 +242,7 @@ def _check(prop, tier, seed, replay, work, t0):
                           "0-2 slot migrations per scenario (instant hand-over = MOVED, or begin / move keys / finish = ASK window) fired at request counts; "
                           "after every reported error the replay restarts from the stored position (<= 4 runs)" % cmds_}
     vlib.write_evidence(prop, tier, seed, "model_checking", cov,
-                        ["bidirectional units under migration (the txn batcher's whole-transaction redirect) - C14/C18 run on a static layout",
+                        ["bidirectional units: one hand-over per scenario, two nodes (the unit's slot moves to the other node and stays there)",
                          "a node that fails for good (the failing node of the fail-fast scenarios refuses one request and recovers)",
                          "commands other than RPUSH and the three-key DEL of a tag pair (TRYAGAIN while one of the keys has moved)"],
                         time.time() - t0, len(violations))
